@@ -51,8 +51,9 @@ func (l *lockedFS) set(name, content string, mt time.Time) {
 }
 
 type c09Call struct {
-	kind string // render | renderfile | renderstring | vuerender
+	kind string // render | renderfile | renderstring | vuerender | basestring | sharedstring | sharedfile
 	prog c10Prog
+	tpl  vuego.Template // sharedstring / sharedfile: ONE filled template value used by every goroutine
 }
 
 func c09Do(t vuego.Template, c c09Call, shared map[string]any) (string, bool) {
@@ -77,6 +78,14 @@ func c09Do(t vuego.Template, c c09Call, shared map[string]any) (string, bool) {
 			err = t.New().Fill(data).RenderString(context.Background(), &buf, c10Files[c.prog.page])
 		case "vuerender":
 			err = vuego.VerifVue(t).Render(&buf, c.prog.page, data)
+		// the base template itself, and one filled template value, used directly by every goroutine (no New() per request): per-request state
+		// must live in the call, not in the template value
+		case "basestring":
+			err = t.RenderString(context.Background(), &buf, c10Files[c.prog.page])
+		case "sharedstring":
+			err = c.tpl.RenderString(context.Background(), &buf, c10Files[c.prog.page])
+		case "sharedfile":
+			err = c.tpl.RenderFile(context.Background(), &buf, c.prog.page)
 		}
 	}()
 	return buf.String(), err != nil
@@ -84,7 +93,8 @@ func c09Do(t vuego.Template, c c09Call, shared map[string]any) (string, bool) {
 
 func c09Workload(r *Run, rounds int, shareData bool, mutateFiles bool) (calls int, mismatches []string) {
 	progs := c10Progs()
-	kinds := []string{"render", "renderfile", "renderstring", "vuerender"}
+	kinds := []string{"render", "renderfile", "renderstring", "vuerender", "basestring", "sharedstring", "sharedfile"}
+	sharedTpl := map[string]vuego.Template{}
 	lfs := &lockedFS{m: c10FS()}
 	base := vuego.NewFS(lfs)
 	// expected results: each call alone on a fresh engine
@@ -95,13 +105,23 @@ func c09Workload(r *Run, rounds int, shareData bool, mutateFiles bool) (calls in
 	}
 	for _, p := range progs {
 		for _, k := range kinds {
-			if k == "renderstring" && strings.HasPrefix(c10Files[p.page], "---") {
+			if strings.HasSuffix(k, "string") && strings.HasPrefix(c10Files[p.page], "---") {
 				continue
 			}
 			if shareData && strings.HasSuffix(p.name, "/1") || shareData && strings.HasSuffix(p.name, "/2") {
 				continue
 			}
-			out, e := c09Do(vuego.NewFS(&lockedFS{m: c10FS()}), c09Call{k, p}, shared)
+			fresh := vuego.NewFS(&lockedFS{m: c10FS()})
+			call := c09Call{kind: k, prog: p}
+			if strings.HasPrefix(k, "shared") {
+				d := any(p.data())
+				if shared != nil {
+					d = shared
+				}
+				call.tpl = fresh.New().Fill(d)
+				sharedTpl[k+"|"+p.name] = base.New().Fill(d)
+			}
+			out, e := c09Do(fresh, call, shared)
 			expect[k+"|"+p.name] = [2]any{out, e}
 		}
 	}
@@ -134,7 +154,7 @@ func c09Workload(r *Run, rounds int, shareData bool, mutateFiles bool) (calls in
 					// rewrite a file with identical content and a new mtime: forces reloads into the cache while others render
 					lfs.set(prog.page, c10Files[prog.page], time.Unix(1700000000+int64(i), 0))
 				}
-				out, e := c09Do(base, c09Call{parts[0], prog}, shared)
+				out, e := c09Do(base, c09Call{kind: parts[0], prog: prog, tpl: sharedTpl[key]}, shared)
 				want := expect[key]
 				mu.Lock()
 				calls++
